@@ -928,7 +928,9 @@ func (c11Checker) Run(tp *Tapes, opt RunOpt) *Outcome {
 			case "FromString":
 				tpl, err = set.FromString(c11Content(sp, 0, sp.Files[0].Disks[0]))
 			case "FromBytes":
-				tpl, err = set.FromBytes([]byte(c11Content(sp, 0, sp.Files[0].Disks[0])))
+				buf := []byte(c11Content(sp, 0, sp.Files[0].Disks[0]))
+				tpl, err = set.FromBytes(buf)
+				reuseBuffer(buf)
 			default:
 				tpl, err = set.FromFile(sp.TopName)
 			}
